@@ -33,7 +33,9 @@ from .loader import AnalysisError, Func
 from .re_model import CLS, MOD, REModel
 from .run_tail import OTEL_TOTAL
 
-G = namedtuple("G", "state permit resumable cancel")
+# origin: the await site at which the most recent accepted external request landed (None after _run's own
+# transitions) - it keys findings by *where* the request was accepted, so a new window is a new finding
+G = namedtuple("G", "state permit resumable cancel origin", defaults=(None,))
 St = namedtuple("St", "g locs")  # locs: frozenset of (name, value)
 
 TRACKED_ATTRS = ("self._state", "self._msg_cache")
@@ -73,11 +75,36 @@ class Engine:
         self._stack: list = []
         self._relevant: dict[str, bool] = {}
         self._closure: dict[G, frozenset] = {}
+        self._sites: dict = {}
         self.obligations: dict = {}  # (func.key, stmt id) -> {"stmt","func","pre":set,"bad":set,"kind"}
         self.rejections: dict = {}  # request -> {start state: (result, effects)}
         self.req_funcs = {name: self.repo.func(MOD, q) for name, q in REQUESTS}
         self.handlers = {cmd: rm.handler(cmd) for cmd in rm.registry}
         self.stats = {"summaries": 0, "solves": 0}
+
+    # ------------------------------------------------------------------ await sites
+    def site_of(self, f: Func, stmt) -> str:
+        """Role-based name of an await site: function, statement, and (for _run) the region it lies in."""
+        key = (f.key, id(stmt))
+        if key in self._sites:
+            return self._sites[key]
+        name = f"{f.qualname}:{A.head(stmt)}"
+        if f.key == self.rm.run.key:
+            rm = self.rm
+            region = "before the loop"
+            if any(stmt is x for x in A.walk_stmts(rm.pause_block.body)):
+                region = "in the pause block"
+            elif any(stmt is x for x in A.walk_stmts(rm.loop.body)):
+                region = "in the message loop"
+            elif any(stmt is x for x in A.walk_stmts(rm.outer_try.finalbody)):
+                region = "in the finally"
+            else:
+                for h in rm.outer_try.handlers:
+                    if any(stmt is x for x in A.walk_stmts(h.body)):
+                        region = "in " + A.head(h)
+            name = f"{name} {region}"
+        self._sites[key] = name
+        return name
 
     # ------------------------------------------------------------------ relevance
     def touches(self, f: Func, seen=None) -> bool:
@@ -205,6 +232,14 @@ class Engine:
         return any(k in txt for k in ("self._state", "self.state", "self.resumable", "self._msg_cache", "is_set()"))
 
     # ------------------------------------------------------------------ environment
+    def closure_at(self, g: G, site: str):
+        """closure of the requests from g; tuples whose state an accepted request changed carry the await site"""
+        base = g._replace(origin=None)
+        out = set()
+        for g2 in self.closure(base):
+            out.add(g2._replace(origin=site if g2.state != g.state else g.origin))
+        return out
+
     def closure(self, g0: G) -> frozenset:
         if g0 in self._closure:
             return self._closure[g0]
@@ -315,7 +350,7 @@ class Engine:
                     else:
                         any_irrelevant = True
                 if any_irrelevant:
-                    n2, c2 = self.lib_await(st, always_yields=False)
+                    n2, c2 = self.lib_await(st, always_yields=False, site=self.site_of(f, s))
                     normal |= n2
                     for s2 in c2:
                         add_exc("CancelledError", s2)
@@ -326,10 +361,10 @@ class Engine:
             is_sleep0 = cn == "asyncio.sleep" and call.args and isinstance(call.args[0], ast.Constant) and call.args[0].value == 0
             is_sleep = cn == "asyncio.sleep"
             if cn == "self._run_permit.wait":
-                n2, c2 = self.permit_wait(st)
+                n2, c2 = self.permit_wait(st, site=self.site_of(f, s))
             else:
                 n2, c2 = self.lib_await(st, always_yields=bool(is_sleep0 or (is_sleep and call.args and not isinstance(call.args[0], ast.Starred)
-                                                                     and isinstance(call.args[0], ast.Constant))))
+                                                                     and isinstance(call.args[0], ast.Constant))), site=self.site_of(f, s))
             for s2 in c2:
                 add_exc("CancelledError", s2)
             precise.add("CancelledError")
@@ -351,7 +386,7 @@ class Engine:
                 ok = self.legal(g.state, lit)
                 self.record(f, s, st, ok, "assign", env, f"{g.state} -> {lit} rejected by the setter")
                 if ok:
-                    return {St(g._replace(state=lit), st.locs)}, exc, {"TransitionError"}
+                    return {St(g._replace(state=lit, origin=None if env is None else g.origin), st.locs)}, exc, {"TransitionError"}
                 add_exc("TransitionError", st)  # the setter raises, the state is unchanged
                 return set(), exc, {"TransitionError"}
             if tgt == "self._msg_cache":
@@ -425,9 +460,9 @@ class Engine:
             cur = nxt
         return cur, exc, precise
 
-    def lib_await(self, st: St, always_yields: bool):
+    def lib_await(self, st: St, always_yields: bool, site: str = "?"):
         normal, cancelled = set(), set()
-        for g2 in self.closure(st.g):
+        for g2 in self.closure_at(st.g, site):
             if g2.cancel:
                 cancelled.add(St(g2._replace(cancel=False), st.locs))
             else:
@@ -436,12 +471,12 @@ class Engine:
             normal.add(st)  # completed without yielding to the loop: the cancel is still pending
         return normal, cancelled
 
-    def permit_wait(self, st: St):
+    def permit_wait(self, st: St, site: str = "?"):
         normal, cancelled = set(), set()
         if st.g.permit:
             normal.add(st)  # Event.wait() returns at once when the event is set
             return normal, cancelled
-        for g2 in self.closure(st.g):
+        for g2 in self.closure_at(st.g, site):
             if g2.cancel:
                 cancelled.add(St(g2._replace(cancel=False), st.locs))
             elif g2.permit:
@@ -525,18 +560,18 @@ def check_c07_d1(ctx, rm: REModel, eng: Engine | None = None) -> Engine:
     for key, o in sorted(eng.obligations.items(), key=lambda kv: (kv[0][0], getattr(kv[1]["stmt"], "lineno", 0))):
         f, stmt = o["func"], o["stmt"]
         pre_states = sorted({g.state for g in o["pre"]})
-        bad_states = sorted({g.state for g in o["bad"]})
+        bad_keys = sorted({(g.state, g.origin or "no external request since _run's last own transition") for g in o["bad"]})
         rule = "C07.D1-transition-legal" if o["kind"] == "assign" else "C07.D1-assert-holds"
         n_ob += 1
-        if not bad_states:
+        if not bad_keys:
             ctx.ob(rule, cname(f, stmt), True, f"pre-states {pre_states}", nontrivial=True, where=where(f, stmt))
         else:
-            for b in bad_states:
-                ctx.ob(rule, f"{cname(f, stmt)} from {b}", False,
-                       f"reachable with the engine in state {b!r} ({'; '.join(sorted(o['detail']))[:200]}); "
-                       f"reachable pre-tuples: {fmt(g for g in o['bad'] if g.state == b)}",
+            for b, origin in bad_keys:
+                ctx.ob(rule, f"{cname(f, stmt)} from {b} <- request accepted at [{origin}]", False,
+                       f"reachable with the engine in state {b!r} ({'; '.join(sorted(o['detail']))[:200]}) after a request was accepted at "
+                       f"`{origin}`; reachable pre-tuples: {fmt(g for g in o['bad'] if g.state == b and (g.origin or '') == (origin if g.origin else ''))}",
                        nontrivial=True, where=where(f, stmt))
-            ok_states = [s for s in pre_states if s not in bad_states]
+            ok_states = [s for s in pre_states if s not in {b for b, _o in bad_keys}]
             ctx.ob(rule, f"{cname(f, stmt)} from the other pre-states", True, f"legal from {ok_states}", nontrivial=True)
     ctx.expect("C07.D1-transition-legal", 6)
     # report the request table (information, not violations)
